@@ -56,7 +56,8 @@ func draw(t *rapid.T) Case {
 		}
 		st = trial
 	}
-	return Case{Doc: doc.Text(false), Patch: ref.OpsText(ops, false), Neg: neg}
+	dt, pt := gen.Texts(t, doc, ref.OpsTree(ops), false, "sp")
+	return Case{Doc: dt, Patch: pt, Neg: neg}
 }
 
 func errClass(err error) string {
